@@ -47,30 +47,36 @@ func vhGrow(sp *vhSpec, how int) *vhSpec {
 }
 
 // vhCheckUpdate: the oracle for one update given the previously broadcast view per slot.
-func vhCheckUpdate(pfx string, n int, sent vhSent, prev, u *vhUpdate, nilLabel string) {
+// It returns what was reconstructed for the nil-voted round; that obligation is checked by
+// vhCheckNilVoted.
+func vhCheckUpdate(pfx string, n int, sent vhSent, prev, u *vhUpdate) vhCover {
 	keys := vkit.OkKeys(n)
 	views := []*vhSpec{u.committing, u.voting, u.nextRound, u.nilVoted}
-	prevs := []*vhSpec{prev.committing, prev.voting, prev.nextRound, nil}
-	names := []string{"committing", "voting", "next-round", "nil-voted"}
+	prevs := []*vhSpec{prev.committing, prev.voting, prev.nextRound}
+	names := []string{"committing", "voting", "next-round"}
 	cov := vhReconstruct(pfx, n, sent, keys, views) // several views: search by height/round
-	for i, v := range views {
+	for i, v := range views[:3] {
 		if v == nil {
 			continue
 		}
-		if i == 3 {
-			// the final precommits of the nil-committed round
-			need := vhNeed(nil, v, false)
-			verifrt.Observe(pfx+"-nil-voted-precommits-need-got", vhWord3(need.votes[1]), vhWord3(cov[i].votes[1]))
-			ok := true
-			for t := 0; t < 3; t++ {
-				ok = ok && need.votes[1][t]&^cov[i].votes[1][t] == 0
-			}
-			verifrt.Assert(ok, nilLabel)
-			continue
-		}
 		same := prevs[i] != nil && prevs[i].h == v.h && prevs[i].r == v.r
-		vhCheckEverything(pfx+"-"+names[i], vhNeed(prevs[i], v, same), cov[i], true, true, true)
+		vhCheckEverything(pfx+"-"+names[i], vhNeed(prevs[i], v, same), cov[i], vhAllChecks)
 	}
+	return cov[3]
+}
+
+// vhCheckNilVoted: the final precommits of the nil-committed round are offered.
+func vhCheckNilVoted(pfx string, v *vhSpec, got vhCover, label string) {
+	if v == nil {
+		return
+	}
+	need := vhNeed(nil, v, false)
+	verifrt.Observe(pfx+"-nil-voted-precommits-need-got", vhWord3(need.votes[1]), vhWord3(got.votes[1]))
+	ok := true
+	for t := 0; t < 3; t++ {
+		ok = ok && need.votes[1][t]&^got.votes[1][t] == 0
+	}
+	verifrt.Assert(ok, label)
 }
 
 // VH_C17_K1_KernelTwoUpdates runs the real kernel goroutine (NewChattyStrategy + Start)
@@ -153,6 +159,9 @@ func VH_C17_K1_KernelTwoUpdates() {
 
 	verifrt.Observe("K1-messages", uint64(len(sent1.ph)), uint64(len(sent1.votes[0])), uint64(len(sent1.votes[1])),
 		uint64(len(sent2.ph)), uint64(len(sent2.votes[0])), uint64(len(sent2.votes[1])))
-	vhCheckUpdate("K1u1", n, sent1, &vhUpdate{}, u1, "K1u1:first-update-nil-voted-round-precommits-broadcast")
-	vhCheckUpdate("K1u2", n, sent2, u1, u2, "K1u2:nil-voted-round-precommits-broadcast")
+	nv1 := vhCheckUpdate("K1u1", n, sent1, &vhUpdate{}, u1)
+	nv2 := vhCheckUpdate("K1u2", n, sent2, u1, u2)
+	vhCheckNilVoted("K1u2", u2.nilVoted, nv2, "K1u2:nil-voted-round-precommits-broadcast")
+	// last (a failed obligation ends the path): a nil-voted round in the very first update
+	vhCheckNilVoted("K1f", u1.nilVoted, nv1, "K1f:first-update-nil-voted-round-precommits-broadcast")
 }
